@@ -379,9 +379,16 @@ static void strlen_case(vrng *r, size_t len, int kind /* 0 string 1 bytes 2 name
 }
 
 /* well-formed sequences derived from trees */
+static const vbuf *EMIT_ENC;     /* the independent encoding of the tree being emitted (spans valid) */
 static void emit(binson_writer *w, const vnode *n, vrng *r, uint64_t *calls)
 {
     (*calls)++;
+    if ((n->kind == K_OBJ || n->kind == K_ARR) && n->parent && EMIT_ENC && vrn(r, 12) == 0) {
+        /* a pre-encoded sub-document handed over with binson_write_raw */
+        binson_write_raw(w, EMIT_ENC->p + n->off, n->len);
+        vw_count("raw_embedded_containers", 1);
+        return;
+    }
     switch (n->kind) {
     case K_BOOL: binson_write_boolean(w, n->b); break;
     case K_INT: binson_write_integer(w, n->i); break;
@@ -428,6 +435,7 @@ static void tree_case(vrng *r)
     uint8_t *dst = vg_exact(e.n);
     binson_writer w; binson_writer_init(&w, dst, e.n);
     uint64_t calls = 0;
+    EMIT_ENC = &e;
     emit(&w, t, r, &calls);
     char what[400];
     if (w.error_flags != BINSON_ERROR_NONE || binson_writer_get_counter(&w) != e.n || memcmp(dst, e.p, e.n) != 0) {
